@@ -98,6 +98,8 @@ structure K {V} (r : Runner V) (H : List (Done V)) (cm : Chans V) : Prop where
   flag : ∀ n c, (n, c) ∈ cm → c.ctrl ≠ [] → (∀ p d, (p, d) ∈ c.ctrl → d = Dep.skipped) → c.skipped = true
   sk : ∀ n c, (n, c) ∈ cm → SkOK c
   nd : (akeys cm).Nodup
+  dat : ∀ n c, (n, c) ∈ cm → ∀ p, (p, true) ∈ c.data → (∃ o, (p, o) ∈ H) ∨ skOf cm p = 1
+  vnd : ∀ n c, (n, c) ∈ cm → (akeys c.values).Nodup
 
 theorem skOf_mono_modChan {V} (cm : Chans V) (k : Key) (f : Chan V → Chan V)
     (h6 : ∀ c0, (k, c0) ∈ cm → c0.skipped = true → (f c0).skipped = true) (p : Key)
@@ -129,10 +131,13 @@ theorem K_update {V} {r : Runner V} {H : List (Done V)} {cm : Chans V} (hK : K r
     (h4 : ∀ c0, (k, c0) ∈ cm → (f c0).ctrl ≠ [] → (∀ p d, (p, d) ∈ (f c0).ctrl → d = Dep.skipped) →
         (f c0).skipped = true)
     (h5 : ∀ c0, (k, c0) ∈ cm → SkOK (f c0))
-    (h6 : ∀ c0, (k, c0) ∈ cm → c0.skipped = true → (f c0).skipped = true) :
+    (h6 : ∀ c0, (k, c0) ∈ cm → c0.skipped = true → (f c0).skipped = true)
+    (h7 : ∀ c0, (k, c0) ∈ cm → ∀ p, (p, true) ∈ (f c0).data →
+        (p, true) ∈ c0.data ∨ (∃ o, (p, o) ∈ H) ∨ skOf cm p = 1)
+    (h8 : ∀ c0, (k, c0) ∈ cm → (akeys c0.values).Nodup → (akeys (f c0).values).Nodup) :
     K r H (modChan cm k f) := by
   have mono := skOf_mono_modChan cm k f h6
-  refine ⟨?_, ?_, ?_, ?_, ?_, ?_⟩
+  refine ⟨?_, ?_, ?_, ?_, ?_, ?_, ?_, ?_⟩
   · intro n c' hm p hp
     obtain ⟨c, hc, rfl⟩ := (mem_modChan _ _ _ _ _).mp hm
     by_cases hk : (n == k) = true
@@ -190,10 +195,39 @@ theorem K_update {V} {r : Runner V} {H : List (Done V)} {cm : Chans V} (hK : K r
     · simp only [hk, Bool.false_eq_true, ↓reduceIte]
       exact hK.sk n c hc
   · rw [akeys_modChan]; exact hK.nd
+  · intro n c' hm p hp
+    obtain ⟨c, hc, rfl⟩ := (mem_modChan _ _ _ _ _).mp hm
+    have lift : ((∃ o, (p, o) ∈ H) ∨ skOf cm p = 1) → ((∃ o, (p, o) ∈ H) ∨ skOf (modChan cm k f) p = 1) := by
+      rintro (h | h)
+      · exact Or.inl h
+      · exact Or.inr (mono p h)
+    by_cases hk : (n == k) = true
+    · have e : n = k := by simpa using hk
+      subst e
+      simp only [hk, ↓reduceIte] at hp
+      rcases h7 c hc p hp with h | h
+      · exact lift (hK.dat n c hc p h)
+      · exact lift h
+    · simp only [hk, Bool.false_eq_true, ↓reduceIte] at hp
+      exact lift (hK.dat n c hc p hp)
+  · intro n c' hm
+    obtain ⟨c, hc, rfl⟩ := (mem_modChan _ _ _ _ _).mp hm
+    by_cases hk : (n == k) = true
+    · have e : n = k := by simpa using hk
+      subst e
+      simp only [hk, ↓reduceIte]
+      exact h8 c hc (hK.vnd n c hc)
+    · simp only [hk, Bool.false_eq_true, ↓reduceIte]
+      exact hK.vnd n c hc
 
 theorem K_mono {V} {r : Runner V} {H H' : List (Done V)} {cm : Chans V} (hK : K r H cm)
     (h : ∀ d, d ∈ H → d ∈ H') : K r H' cm := by
-  refine ⟨?_, ?_, ?_, hK.flag, hK.sk, hK.nd⟩
+  refine ⟨?_, ?_, ?_, hK.flag, hK.sk, hK.nd, ?_, hK.vnd⟩
+  rotate_left 3
+  · intro n c hc p hp
+    rcases hK.dat n c hc p hp with ⟨o, ho⟩ | h1
+    · exact Or.inl ⟨o, h _ ho⟩
+    · exact Or.inr h1
   · intro n c hc p hp
     obtain ⟨o, ho, hr⟩ := hK.rdy n c hc p hp
     exact ⟨o, h _ ho, hr⟩
@@ -252,6 +286,17 @@ theorem skipOne_K {V} {r : Runner V} {H : List (Done V)} {cm : Chans V} (hK : K 
         exact e4.mpr hall
       · exact fun c _ => k1
       · exact h6
+      · intro c hc p hp
+        rw [uniq c hc]
+        rcases e2 p _ hp with h | ⟨rfl, _, _⟩
+        · exact Or.inl h
+        · right
+          rcases hm with h | ⟨o, ho, _⟩
+          · exact Or.inr h
+          · exact Or.inl ⟨o, ho⟩
+      · intro c hc hnd
+        rw [reportSkip_values]
+        rw [← uniq c hc]; exact hnd
     · intro hb
       simp only [Bool.and_eq_true, Bool.not_eq_eq_eq_not, Bool.not_true] at hb
       unfold skOf
@@ -502,6 +547,18 @@ theorem resolve_K {V} {H : List (Done V)} (r : Runner V) (hd : r.dag = true) (hs
 
 /-! ### updateValues / updateDependencies -/
 
+theorem valsF_fold_vnodup {V} (ins : List (Key × V)) (c : Chan V) (h : (akeys c.values).Nodup) :
+    (akeys (ins.foldl valsF c).values).Nodup := by
+  induction ins generalizing c with
+  | nil => exact h
+  | cons kv t ih =>
+    simp only [List.foldl_cons]
+    apply ih
+    unfold valsF
+    split
+    · exact nodup_akeys_aset _ _ _ h
+    · exact h
+
 theorem updateValues_K {V} {H : List (Done V)} (r : Runner V) (hd : r.dag = true)
     (writes : List (Key × List (Key × V))) (hw : WritesK r H writes) (cm : Chans V)
     (hK : K r H cm) (hsh : shapes cm = shapes (initChans r)) :
@@ -555,6 +612,19 @@ theorem updateValues_K {V} {H : List (Done V)} (r : Runner V) (hd : r.dag = true
           simp only [↓reduceIte]
           exact ho.wit h hnil)
       (fun c hc h => by rw [hd, (key c).2.1]; exact h)
+      (fun c hc p hp => by
+        rw [hd, reportValues_eq] at hp
+        split at hp
+        · exact Or.inl hp
+        · rcases (valsF_fold ins c).2.2.2 p true hp with h | ⟨h1, _⟩
+          · exact Or.inl h
+          · obtain ⟨v, hv⟩ := exists_of_mem_akeys _ _ h1
+            exact Or.inr (Or.inl ⟨v, (hins p v hv).1⟩))
+      (fun c hc hnd => by
+        rw [hd, reportValues_eq]
+        split
+        · exact hnd
+        · exact valsF_fold_vnodup ins c hnd)
     have hsk : ∀ p, skOf (modChan cm w.1 (fun c => c.reportValues r.dag ins)) p = skOf cm p := by
       intro p
       unfold skOf
@@ -637,6 +707,8 @@ theorem updateDeps_K {V} {H : List (Done V)} (r : Runner V) (hd : r.dag = true)
           · rw [k2'] at h; exact absurd h hns
           · rw [k2'] at h; exact absurd h hns)
       (fun c hc h => by rw [hd, (key c).2.1]; exact h)
+      (fun c hc p hp => by rw [hd, (key c).2.2.1] at hp; exact Or.inl hp)
+      (fun c hc hnd => by rw [hd, (key c).2.2.2.1]; exact hnd)
     have hsk : ∀ p, skOf (modChan cm w.1 (fun c => c.reportDeps r.dag ins)) p = skOf cm p := by
       intro p
       unfold skOf
@@ -729,7 +801,19 @@ theorem skOf_skippedIn {V} {r : Runner V} {H : List (Done V)} (hd : r.dag = true
 theorem getReady_K {V} {r : Runner V} {H : List (Done V)} (ops : ValOps V) (cm : Chans V) (hK : K r H cm) :
     K r H (getReady ops true cm).1 := by
   obtain ⟨g1, _, g3⟩ := getReady_facts ops cm
-  refine ⟨?_, ?_, ?_, ?_, ?_, by rw [g1]; exact hK.nd⟩
+  refine ⟨?_, ?_, ?_, ?_, ?_, by rw [g1]; exact hK.nd, ?_, ?_⟩
+  rotate_left 5
+  · intro n c' hm p hp
+    obtain ⟨c, hc, h⟩ := g3 n c' hm
+    rw [getReady_skOf]
+    rcases h with ⟨_, rfl⟩ | ⟨_, rfl, _⟩
+    · have := (reset_facts c).2.2.2 p _ hp; cases this
+    · exact hK.dat n c' hc p hp
+  · intro n c' hm
+    obtain ⟨c, hc, h⟩ := g3 n c' hm
+    rcases h with ⟨_, rfl⟩ | ⟨_, rfl, _⟩
+    · simp [Chan.reset, akeys]
+    · exact hK.vnd n c' hc
   · intro n c' hm p hp
     obtain ⟨c, hc, h⟩ := g3 n c' hm
     rcases h with ⟨_, rfl⟩ | ⟨_, rfl, _⟩
@@ -1007,7 +1091,22 @@ theorem init_K {V} (r : Runner V) (hd : r.dag = true) (hnd : (akeys (initChans r
     rcases hm with ⟨nd, _, _, rfl⟩ | ⟨_, rfl⟩
     · rw [hd]; exact hci _ _
     · rw [hd]; exact hci _ _
-  refine ⟨?_, ?_, ?_, ?_, ?_, hnd⟩
+  have hdat : ∀ n c, (n, c) ∈ initChans r → ∀ p b, (p, b) ∈ c.data → b = false := by
+    intro n c hm
+    simp only [initChans, List.mem_append, List.mem_map, List.mem_singleton, Prod.mk.injEq] at hm
+    have hci : ∀ (a b : List Key), ∀ p d, (p, d) ∈ (Chan.init (V := V) true a b).data → d = false := by
+      intro a b p d
+      simp only [Chan.init, ↓reduceIte, List.mem_map, Prod.mk.injEq]
+      rintro ⟨_, _, _, rfl⟩; rfl
+    rcases hm with ⟨nd, _, _, rfl⟩ | ⟨_, rfl⟩
+    · rw [hd]; exact hci _ _
+    · rw [hd]; exact hci _ _
+  refine ⟨?_, ?_, ?_, ?_, ?_, hnd, ?_, ?_⟩
+  rotate_left 5
+  · intro n c hm p hp
+    have := hdat n c hm p _ hp; cases this
+  · intro n c hm
+    rw [(hinit n c hm).2.1]; simp [akeys]
   · intro n c hm p hp
     have := (hinit n c hm).1 p _ hp; cases this
   · intro n c hm p hp
